@@ -4,11 +4,11 @@ import (
 	"fmt"
 	"os"
 
-	"verif/core"
-	"verif/engine"
 	"verif/concprops"
+	"verif/core"
 	_ "verif/ctxprops"
 	_ "verif/docstore"
+	"verif/engine"
 	"verif/fsprops"
 	_ "verif/netprops"
 	"verif/ops"
